@@ -188,6 +188,16 @@ def main():
         expected_status[len(jobs)] = sum(k + 5 for k in range(len(names)))
         jobs.append(("intrinsic-namesake-constant", "run", [("m.pn", consts + "fn main() -> i32\n{\n\tvar n: i32 = %s;\n\tprint!(\"n = \", n, \"\\n\");\n"
                                                                "\tif n == 0\n\t{\n\t\tpanic!(\"zero\\n\");\n\t}\n\treturn: n\n}\n" % " + ".join(names))]))
+    # literals of every integer type, suffixed and not, decimal and 0x, as the constant member of a structure literal that also
+    # has a member only known at run time (the builder then folds the constant part; what it folds is checked by nobody but
+    # the assembler), for the host and for wasm32
+    for t_ in ("u8", "u16", "u32", "u64", "u128", "usize", "i8", "i16", "i32", "i64", "i128"):
+        for lit_ in ("16%s" % t_, "0x10%s" % t_, "16", "0x10"):
+            src_ = ("struct Mask\n{\n\tbits: %s,\n\tshift: i32,\n}\nfn pick(extra: i32) -> i32\n{\n\tvar mask = Mask { bits: %s, shift: extra };\n"
+                    "\tvar arr: [2]%s = [%s, mask.bits];\n\treturn: mask.shift + (arr[0] as i32)\n}\nfn main() -> i32\n{\n\tvar n: i32 = 32;\n\treturn: pick(n) - n\n}\n"
+                    % (t_, lit_, t_, lit_))
+            jobs.append(("literal-in-mixed-structure", "verify", [("m.pn", src_)]))
+            jobs.append(("literal-in-mixed-structure-wasm", "wasm", [("m.pn", src_)]))
     # pointers to an opaque structure (nothing is known about it, in particular not its size): held in a constant, a
     # variable, a parameter; advanced with `..`, indexed, compared, passed on - whatever is accepted has to be valid IR
     opaque_head = "struct Owner;\nconst P: &Owner = 0x10;\nfn take(o: &Owner)\n{\n}\n"
